@@ -49,7 +49,7 @@ func vChooseShape() vShape {
 		return sh
 	}
 	sh.older = verifChoice("older", 3)
-	if sh.older > 0 {
+	if sh.older == 1 {
 		sh.olderIncs = verifChoice("olderIncs", 2)
 	}
 	sh.fullWALs = verifChoice("fullWALs", 3)
@@ -57,7 +57,13 @@ func vChooseShape() vShape {
 	if sh.incs > 0 {
 		sh.walsPerInc = 1 + verifChoice("walsPerInc", 2)
 	}
-	sh.noVerifyDB = verifChoice("noVerifyDB", 2) == 1
+	simple := sh.walsPerInc == 1 && sh.fullWALs < 2
+	// two older full snapshots, and plans without the database verification step, only together
+	// with the simpler rest (keeps the thorough tier within its time budget)
+	verifAssume(sh.older < 2 || simple)
+	if simple && sh.older < 2 {
+		sh.noVerifyDB = verifChoice("noVerifyDB", 2) == 1
+	}
 	verifAssume(sh.nWAL() < vNativeWALs)
 	return sh
 }
@@ -174,16 +180,12 @@ func vCrashScenario(sh vShape, repairs int) (root, dir string, pre vView, crashe
 	return
 }
 
-// VerifC07Crash: one crash during the reap, for every shape; one more during the repair (quick:
-// for the shapes with one older full snapshot and one incremental snapshot; thorough: all).
+// VerifC07Crash: for every shape, a crash at every crash point of the reap, followed by a crash
+// at every crash point of the start-up repair (or none).
 func VerifC07Crash() {
 	verifPanicsAreViolations()
 	sh := vChooseShape()
-	repairs := 0
-	if verifTier() > 0 || (sh.older == 1 && sh.incs == 1) {
-		repairs = 1
-	}
-	root, dir, pre, _ := vCrashScenario(sh, repairs)
+	root, dir, pre, _ := vCrashScenario(sh, 1)
 	defer vDropRoot(root)
 
 	// the next start of the store
